@@ -40,13 +40,18 @@ func (t *TaskExecutor[T]) ExecuteAt(identifier T, callback func(), executionTime
 		queuedElement.Cancel()
 	}
 
-	scheduledTask := t.Executor.ExecuteAt(func() {
+	var scheduledTask *ScheduledTask
+	scheduledTask = t.Executor.ExecuteAt(func() {
 		callback()
 
 		t.queuedElementsMutex.Lock()
 		defer t.queuedElementsMutex.Unlock()
 
-		t.queuedElements.Delete(identifier)
+		// only remove the mapping if it still belongs to this task: the identifier might have been scheduled again while
+		// the callback was running, in which case the mapping already points to the successor.
+		if queuedElement, queuedElementExists := t.queuedElements.Get(identifier); queuedElementExists && queuedElement == scheduledTask {
+			t.queuedElements.Delete(identifier)
+		}
 	}, executionTime)
 
 	if scheduledTask != nil {
